@@ -107,6 +107,7 @@ func LoadModule(repo, rel string) (*Module, error) {
 	prog, _ := ssautil.AllPackages(initial, ssa.InstantiateGenerics)
 	prog.Build()
 	m.Prog = prog
+	registerHelpers(m)
 	return m, nil
 }
 
